@@ -143,7 +143,18 @@ fn one_doc(ctx: &mut Ctx, src: &str, all_cfgs: bool) {
                     if again != text { ctx.fail("reprint-differs", &input, &format!("first {text:?} second {again:?}")); }
                 }
             }
-            Ok(Err(e)) => ctx.fail("reparse-error", &input, &format!("printed text has syntax errors: {text:?}: {}", e.errors.to_string().lines().next().unwrap_or(""))),
+            Ok(Err(e)) => {
+                // the recorded C05 defect (a root operation type without its named type is accepted, `schema { query: }`)
+                // seen through this property: from_cst drops the incomplete root, and a schema definition / extension left
+                // without anything prints as `schema` / `extend schema`, which does not parse
+                let nameless_root = {
+                    let t: Vec<&str> = src.split(|c: char| c.is_whitespace() || c == ',').filter(|x| !x.is_empty()).collect();
+                    t.windows(2).any(|w| ["query:", "mutation:", "subscription:"].contains(&w[0]) && (w[1] == "}" || w[1].ends_with(':')))
+                        || ["query:}", "mutation:}", "subscription:}"].iter().any(|k| src.replace(' ', "").contains(k))
+                };
+                let key = if nameless_root { "reparse-error-after-nameless-root-operation" } else { "reparse-error" };
+                ctx.fail(key, &input, &format!("printed text has syntax errors: {text:?}: {}", e.errors.to_string().lines().next().unwrap_or("")))
+            }
             Err(m) => ctx.fail("reparse-panic", &input, &m),
         }
         ctx.nontrivial(&text);
@@ -190,7 +201,27 @@ const SNIPPETS: &[&str] = &[
     "directive @d on FIELD", "directive @d(a: Int) repeatable on FIELD | QUERY", "\"d\" scalar S", "\"d\" type T", "\"d\" directive @d on FIELD",
 ];
 
+/// The recorded C05 defect seen through this property (implementation only: the reference parser of the model is the
+/// grammar's and rejects these sources, Properties/C08 `from_cst_agrees_with_reference_parser_refuted`): a source with a
+/// root operation type that lacks its named type parses without error; from_cst drops that root; what is left is printed.
+fn nameless_root_cases(ctx: &mut Ctx) {
+    for src in ["schema { query: }", "extend schema { query: }", "schema { query: Q mutation: } type Q { a: Int }", "extend schema @d { query: }",
+                "schema @d { query: Q subscription: } type Q { a: Int } directive @d on SCHEMA"] {
+        let Ok(Ok(doc)) = catch(|| ast::Document::parse(src.to_string(), "d.graphql")) else { ctx.stat("nameless_root_source_rejected"); continue };
+        for (p, l) in CFGS {
+            let text = print_with(&doc, p, l);
+            let input = format!("prefix={p:?} level={l} src={src:?}");
+            match catch(|| ast::Document::parse(text.clone(), "r.graphql")) {
+                Ok(Ok(back)) => if dump(&back) != dump(&doc) { ctx.fail("reparse-differs", &input, &format!("printed {text:?}")) } else { ctx.stat("nameless_root_roundtrip_ok") },
+                Ok(Err(e)) => ctx.fail("reparse-error-after-nameless-root-operation", &input, &format!("printed text has syntax errors: {text:?}: {}", e.errors.to_string().lines().next().unwrap_or(""))),
+                Err(m) => ctx.fail("reparse-panic", &input, &m),
+            }
+        }
+    }
+}
+
 pub fn run(ctx: &mut Ctx) {
+    nameless_root_cases(ctx);
     for s in FIXED { one_doc(ctx, s, true); }
     for a in SNIPPETS { for b in SNIPPETS { one_doc(ctx, &format!("{a} {b}"), false); } }
     if ctx.thorough { for a in SNIPPETS { for b in &SNIPPETS[..8] { for c in SNIPPETS.iter().step_by(3) { one_doc(ctx, &format!("{a} {b} {c}"), false); } } } }
